@@ -969,7 +969,9 @@ class Recorder(object):
 def geom_key_of(srs, geom):
     if geom.is_empty:
         return ('empty',)
-    return (srs.srs_code, tuple(round(v, 3) for v in geom.bounds))
+    # bounds alone are ambiguous (an intersection that keeps a sliver of a second part has the bounds of the
+    # whole geometry): the area, to six significant digits, is part of the key
+    return (srs.srs_code, tuple(round(v, 3) for v in geom.bounds), float('%.6g' % geom.area))
 
 
 def geom_key(cov):
